@@ -14,6 +14,10 @@ func runStackProperty(t *testing.T, prop, test string, gen func(*rapid.T) SProgr
 	defer rec.Flush(t)
 
 	runOne := func(p SProgram, fatalf func(string, ...interface{})) {
+		if msg, ok := rec.Tripped(); ok {
+			fatalf("%s", msg)
+			return
+		}
 		x, f, err := RunSProgram(p)
 		if x != nil {
 			defer x.Destroy()
